@@ -17,7 +17,7 @@ TRUSTED_EXTRA = [
     "with a regulariser the property holds only up to rounding of h(x) (objective of one point recomputed at xbase+points[k]): partial, checked by the search with tolerance 1e-9",
     "objective values of the evaluations are recomputed by the harness from the recorded residuals (np.dot) and must equal the values the model stored (checked by the acceptor when h is None)",
 ]
-ALLOW = ("bounds", "scaling", "proj", "soft", "hard", "npt", "growing", "regression", "noise", "diag", "randinit", "parallel")
+ALLOW = ("bounds", "scaling", "proj", "soft", "hard", "npt", "growing", "regression", "noise", "diag", "randinit", "parallel", "regu")
 
 
 def mutate(rng, prob, kw, d):
@@ -35,7 +35,10 @@ def mutate(rng, prob, kw, d):
 
 def _runs(ctx):
     if not hasattr(ctx, "_runs"):
-        ctx._runs = ss.run_trace_property(ctx, "book", 350, 4000, 404, None, allow=ALLOW, mutate_cfg=mutate)
+        runs, metas, stats = ss.run_trace_property(ctx, "book", 350, 4000, 404, None, allow=ALLOW, mutate_cfg=mutate)
+        r2, m2 = ss.budget_sweep(ctx, 404, 4, 30)
+        stats["budget_sweep_runs"] = len(r2)
+        ctx._runs = (runs + r2, metas + m2, stats)
     return ctx._runs
 
 
@@ -55,12 +58,12 @@ def search(ctx):
         if t.result is None:
             continue
         n_checked += 1
-        for sig, what in so.c04(t, d):
+        for sig, what in so.c04(t, d, h=kw.get("h")):
             ctx.fail(sig, what, {"seed": seed, "config": ss.describe(d)})
         # soln.obj <= f(x0 projected): first call is x0
         if t.calls and t.result.x is not None and not d.get("avg"):
             f0 = t.calls[0]["v"]
-            if f0 == f0 and not (float(t.result.obj) <= f0):
+            if f0 == f0 and not (float(t.result.obj) <= f0 + (1e-9 * (1 + abs(f0)) if kw.get("h") else 0.0)):
                 ctx.fail("C04:worse-than-x0|" + so.context_tags(t, d), "soln.obj=%r > f(x0)=%r" % (t.result.obj, f0), {"seed": seed})
     ctx.cov["results_checked"] = n_checked
 
@@ -71,7 +74,10 @@ def replay(payload):
     if "seed" not in rp:
         print("replay names a broken obligation:", payload.get("broken"))
         return 1
-    prob, kw, d, t = ss.gen_run(dfols, rp["seed"], allow=ALLOW, mutate_cfg=mutate)
-    res = so.c04(t, d)
+    if len(rp["seed"]) == 5:
+        _seed, prob, kw, d, t, _f = ss.replay_sweep(dfols, rp["seed"])
+    else:
+      prob, kw, d, t = ss.gen_run(dfols, rp["seed"], allow=ALLOW, mutate_cfg=mutate)
+    res = so.c04(t, d, h=kw.get("h"))
     print("replay:", res if res else "property holds on this input now")
     return 1 if res else 0
